@@ -4,6 +4,7 @@ import (
 	"crypto/sha512"
 	"encoding/binary"
 	"fmt"
+	"math/big"
 	"os"
 	"path/filepath"
 	"strings"
@@ -130,7 +131,13 @@ func c18Run(r *core.Run) {
 	if e1 != nil || e2 != nil || e3 != nil || len(sample) < c18RtmrOff+192 {
 		panic(fmt.Sprintf("c18: sample CCEL data not readable: %v %v %v", e1, e2, e3))
 	}
-	w := world.NewWorld(t, world.Cfg{Processor: 1, AuthLen: 0, NoPCS: true})
+	// the world has a PCS, so that the verification gate can also be exercised with collateral and revocation
+	// checking on; in half of the runs every fetch takes simulated time (fake-clock bubble)
+	netLat := -1
+	if r.Index%2 == 0 {
+		netLat = 1 + t.Draw(7)
+	}
+	w := world.NewWorld(t, world.Cfg{Processor: 1, AuthLen: 0, NetLat: netLat})
 	for i := 0; i < 4; i++ {
 		copy(w.Quote.Rtmr[i][:], sample[c18RtmrOff+48*i:])
 	}
@@ -158,7 +165,7 @@ func c18Run(r *core.Run) {
 			o.TrustedRoots = world.Pool(world.NewPKI(t, "X", w.Epoch, w.A).Root)
 		}
 		var st *state.FirmwareLogState
-		out := core.Call(func() error {
+		out := callOnNet(o.Getter, func() error {
 			var err error
 			st, err = rtmr.ParseCcelWithTdQuote(log, table, qq.Proto(0), &rtmr.ParseTdxCcelOpts{Validation: vopts, Verification: o, ExtractOpt: extract.Opts{Loader: extract.GRUB}})
 			return err
@@ -249,8 +256,63 @@ func c18Run(r *core.Run) {
 		x := q.Clone()
 		vf.f(x)
 		gateFail("verify-gate:"+vf.name, "verification-gate:"+vf.name, "the quote does not pass verification ("+vf.name+")", x, noPolicy, vf.lvl, vf.pool)
+		if vf.lvl == O0 {
+			// the same fault with collateral (and revocation) checking on: the downloads succeed, the gate still fails
+			for _, lvl := range []int{O1, O2} {
+				st, o := call(x, noPolicy(), lvl, vf.pool, ccel)
+				judge("verify-gate:"+vf.name+"@"+optNames[lvl], "verification-gate:"+vf.name, true, "the quote does not pass verification ("+vf.name+", "+optNames[lvl]+" checking)", st, o)
+			}
+		}
 		r.Fault("gate:verification:"+vf.name, true)
 		r.State("verify-gate %s", vf.name)
+		r.EndItem()
+	}
+	// --- verification gate fails because of what the collateral says
+	cfaults := []struct {
+		name string
+		lvl  int
+		set  func()
+	}{
+		{"leaf-revoked-among-unordered-entries", O2, func() {
+			var l []*big.Int
+			for i, n := 0, 2+t.Draw(6); i < n; i++ {
+				l = append(l, world.RandSerial(t))
+			}
+			at := t.Draw(len(l) + 1)
+			w.PckCrl.Revoked = append(append(append([]*big.Int(nil), l[:at]...), w.LeafSerial()), l[at:]...)
+		}},
+		{"intermediate-revoked-among-unordered-entries", O2, func() {
+			w.RootCrl.Revoked = []*big.Int{world.RandSerial(t), world.RandSerial(t), w.InterSerial(), world.RandSerial(t)}
+		}},
+		{"tcb-level-out-of-date", O1, func() { w.Tcb.Levels[w.LevelIdx].Status = "OutOfDate" }},
+		{"qe-identity-level-revoked", O1, func() {
+			for i := range w.QE.Levels {
+				w.QE.Levels[i].Status = "Revoked"
+			}
+		}},
+	}
+	for _, cf := range cfaults {
+		if !r.Item("verify-gate:" + cf.name) {
+			continue
+		}
+		savePck, saveRoot := w.PckCrl.Revoked, w.RootCrl.Revoked
+		saveTcb := append([]world.TcbLevel(nil), w.Tcb.Levels...)
+		saveQE := append([]world.QELevel(nil), w.QE.Levels...)
+		cf.set()
+		w.Publish()
+		gateFail("verify-gate:"+cf.name, "verification-gate:"+cf.name, "the quote does not pass verification with "+optNames[cf.lvl]+" checking ("+cf.name+")", q, noPolicy, cf.lvl, true)
+		w.PckCrl.Revoked, w.RootCrl.Revoked = savePck, saveRoot
+		copy(w.Tcb.Levels, saveTcb)
+		copy(w.QE.Levels, saveQE)
+		w.Publish()
+		r.Fault("gate:verification:"+cf.name, true)
+		r.State("verify-gate %s", cf.name)
+		r.EndItem()
+	}
+	// the honest quote passes the gate with collateral and revocation checking on as well
+	if r.Item("control:honest@collateral+revocation") {
+		st, o := call(q, noPolicy(), O2, true, ccel)
+		judge("control:honest@collateral+revocation", "control", false, "", st, o)
 		r.EndItem()
 	}
 	// --- policy gate fails: each field mismatching by one bit
@@ -446,7 +508,7 @@ func init() {
 	register(&core.Check{
 		ID:    "C18",
 		Level: "fault_enumeration",
-		Rule: "per run one seeded world whose platform reports the sample quote's RTMRs, certified by a generated PKI; ParseCcelWithTdQuote with the repository's sample CCEL under: the honest control (no policy / full matching policy), 7 verification-gate faults (foreign-key signatures, broken binding, unsigned changes, untrusted root, revocation without collateral), 17 policy-gate faults (each expectation off by one bit / one step, nil policy) each in the full policy and in a sparse one (tape-chosen other expectations unset, unset RTMR entries keeping their place), every failing gate also with an empty, absent and cut event log, EVERY single-bit change of RTMR0..3 in validly re-signed quotes (quick: 4 runs tile the 1536 bits; thorough: all per world) and 6 digest flips inside the log. " +
+		Rule: "per run one seeded world whose platform reports the sample quote's RTMRs, certified by a generated PKI; ParseCcelWithTdQuote with the repository's sample CCEL under: the honest control (no policy / full matching policy), 9 verification-gate faults (foreign-key signatures, broken binding, unsigned changes, untrusted root, revocation without collateral) each with signature checking alone and with collateral / revocation checking on (in half of the runs over a network whose fetches take 1 ms .. 11 s of simulated time), 4 faults in what the collateral says (leaf / intermediate revoked among unordered CRL entries, TCB level OutOfDate, QE level Revoked), 17 policy-gate faults (each expectation off by one bit / one step, nil policy) each in the full policy and in a sparse one (tape-chosen other expectations unset, unset RTMR entries keeping their place), every failing gate also with an empty, absent and cut event log, EVERY single-bit change of RTMR0..3 in validly re-signed quotes (quick: 4 runs tile the 1536 bits; thorough: all per world) and 6 digest flips inside the log. " +
 			"distinct = gate fault name / (register, bit-in-byte)",
 		Exhaustive: true,
 		Assumptions: []string{
